@@ -190,8 +190,11 @@ Lemma adv_in c s t m : In m (adv c s t) ->
    (rank_of t <> last_rank c /\ mtype m = NORMAL /\ mprom m = 3)).
 Proof.
   unfold adv. destruct (N.eqb_spec (rank_of t) (last_rank c)) as [E|E].
-  - unfold promos. cbn [In]. intros [<-|[<-|[<-|[<-|[]]]]]; cbn; repeat split; left; repeat split; auto; lia.
-  - cbn [In]. intros [<-|[]]. cbn. repeat split. right. auto.
+  - unfold promos. cbn [In]. intros [<-|[<-|[<-|[<-|[]]]]]; cbn [mfrom mto mtype mprom];
+      (split; [reflexivity|split; [reflexivity|left; unfold QUEEN, ROOK, BISHOP, KNIGHT;
+        split; [exact E|split; [reflexivity|lia]]]]).
+  - cbn [In]. intros [<-|[]]. cbn [mfrom mto mtype mprom].
+    split; [reflexivity|split; [reflexivity|right; auto]].
 Qed.
 
 Lemma adv_nodup c s t : NoDup (adv c s t).
@@ -233,7 +236,7 @@ Proof.
   destruct (at_ (brd p) t =? 0); [|intros []].
   intros H. apply in_app_or in H as [H|H].
   - apply adv_in in H as (A1 & A2 & A3). rewrite A1, A2. repeat split; try assumption;
-      destruct A3 as [(_ & -> & A3)|(_ & -> & ->)]; unfold PROMOTION, NORMAL; lia.
+      destruct A3 as [(_ & B1 & B2)|(_ & B1 & B2)]; rewrite ?B1, ?B2; unfold PROMOTION, NORMAL; lia.
   - destruct (rank_of s =? start_rank (stm p)); [|destruct H].
     destruct (step (fwd (stm p)) t) as [u|] eqn:E2; [|destruct H].
     destruct (double_geom _ _ _ _ Hc Hs E E2) as (D1 & D2 & D3).
@@ -263,7 +266,7 @@ Lemma pawn_capture_at_in p s t m : In m (pawn_capture_at p s t) ->
 Proof.
   unfold pawn_capture_at. destruct (enemy (brd p) (stm p) t).
   - intros H. apply adv_in in H as (A1 & A2 & A3). repeat split; try assumption;
-      destruct A3 as [(_ & -> & A3)|(_ & -> & ->)]; unfold PROMOTION, NORMAL; lia.
+      destruct A3 as [(_ & B1 & B2)|(_ & B1 & B2)]; rewrite ?B1, ?B2; unfold PROMOTION, NORMAL; lia.
   - destruct ((t =? ep p) && (at_ (brd p) t =? 0)); [|intros []].
     intros [<-|[]]. cbn. unfold ENPASSANT. repeat split; lia.
 Qed.
